@@ -215,12 +215,14 @@ theorem scanComments_trailing (ks : Str) (body text : Str) (c : Byte) (ca : Opti
       exact ih hcks (fun x hx => hsafe x (List.mem_cons_of_mem _ hx))
 
 
-/-! ## the parser on rendered items (delimiter class "non-blank") -/
+/-! ## the parser on rendered items (delimiter classes "non-blank", "blank" and "mixed") -/
 
-/-- the delimiter / comment sets the theorems are about: delimiter class "non-blank" -/
+/-- the delimiter / comment sets the theorems are about: any non-empty delimiter set without the line
+    break and the quote – all blanks, no blank, or mixed -/
 structure CfgWF (cfg : Cfg) : Prop where
-  nonblank : hasWsp cfg.delim = false
   delimNe : cfg.delim ≠ []
+  dnl : cfg.delim.contains NL = false
+  dquote : cfg.delim.contains QUOTE = false
   noPython : cfg.python = false
   kq : QUOTE ∉ cfg.comment
   kd : ∀ c ∈ cfg.comment, cfg.delim.contains c = false
@@ -247,8 +249,8 @@ theorem noDelim_false (cfg : Cfg) (h : CfgWF cfg) : noDelim cfg.delim = false :=
     cases hd : cfg.delim == [NL]
     · rfl
     · have : cfg.delim = [NL] := by simpa using hd
-      have hw := h.nonblank
-      rw [this] at hw; simp [hasWsp, isSpace, NL] at hw
+      have hw := h.dnl
+      rw [this] at hw; simp at hw
   simp [h1, h2]
 
 /-- blank item -/
@@ -426,7 +428,10 @@ theorem valueOf_quoted (q tws : Str) (htws : blanks tws) :
 /-- only blanks follow: the empty text -/
 theorem valueOf_nil : valueOf [] = (some [], false) := rfl
 
-/-- well-formed entry line of the non-blank delimiter class -/
+/-- well-formed entry line.  The separator is `ws1 ++ d :: ws2`: blanks, one byte `d`, blanks, where `d`
+    is a delimiter byte – or, when the delimiter set mixes blanks and other bytes, any blank (in that
+    class every blank separates key and value).  In the mixed class a plain value must not start with a
+    delimiter byte (it would be taken for the separator). -/
 structure EntryI.WF (cfg : Cfg) (e : EntryI) : Prop where
   ind : blanks e.indent
   keyNe : e.key ≠ []
@@ -435,11 +440,12 @@ structure EntryI.WF (cfg : Cfg) (e : EntryI) : Prop where
   ws1 : blanks e.ws1
   ws2 : blanks e.ws2
   tws : blanks e.tws
-  dIn : cfg.delim.contains e.d = true
+  dIn : cfg.delim.contains e.d = true ∨ (mixedDelim cfg.delim = true ∧ isBlank e.d = true)
   dText : isText e.d = true
   dq : e.d ≠ QUOTE
   val : match e.value with
-    | .plain v => texts v ∧ (∀ k ∈ cfg.comment, k ∉ v) ∧ (∀ c, v.head? = some c → isSpace c = false ∧ c ≠ QUOTE) ∧
+    | .plain v => texts v ∧ (∀ k ∈ cfg.comment, k ∉ v) ∧
+                  (∀ c, v.head? = some c → isSpace c = false ∧ c ≠ QUOTE ∧ (mixedDelim cfg.delim = true → cfg.delim.contains c = false)) ∧
                   (∀ c, v.getLast? = some c → isSpace c = false)
     | .quoted q => texts q
   tc : TrailC.WF cfg e.tc
@@ -450,19 +456,36 @@ def EntryI.core (e : EntryI) : Str := e.key ++ e.ws1 ++ e.d :: e.ws2 ++ e.value.
 theorem EntryI.body_eq (e : EntryI) : e.body = e.core ++ TrailC.render e.tc := by
   simp [EntryI.body, EntryI.core]
 
-theorem not_space_of_delim (cfg : Cfg) (hw : CfgWF cfg) (c : Byte) (h : cfg.delim.contains c = true) : isSpace c = false := by
+/-- no blank among the delimiters: a delimiter is not a blank -/
+theorem not_space_of_delim (delim : Str) (hnb : hasWsp delim = false) (c : Byte) (h : delim.contains c = true) : isSpace c = false := by
   cases hs : isSpace c
   · rfl
-  · have := hw.nonblank
-    unfold hasWsp at this
-    have := List.any_eq_false.mp this c (by simpa using h)
+  · unfold hasWsp at hnb
+    have := List.any_eq_false.mp hnb c (by simpa using h)
     rw [hs] at this; simp at this
 
-theorem blank_not_delim (cfg : Cfg) (hw : CfgWF cfg) (c : Byte) (h : isBlank c = true) : cfg.delim.contains c = false := by
-  cases hd : cfg.delim.contains c
+theorem blank_not_delim (delim : Str) (hnb : hasWsp delim = false) (c : Byte) (h : isBlank c = true) : delim.contains c = false := by
+  cases hd : delim.contains c
   · rfl
-  · have := not_space_of_delim cfg hw c hd
+  · have := not_space_of_delim delim hnb c hd
     rw [isBlank_isSpace h] at this; cases this
+
+/-- only blanks among the delimiters: a delimiter is a blank -/
+theorem space_of_delim (delim : Str) (hb : hasNonWsp delim = false) (c : Byte) (h : delim.contains c = true) : isSpace c = true := by
+  cases hs : isSpace c
+  · unfold hasNonWsp at hb
+    have := List.any_eq_false.mp hb c (by simpa using h)
+    rw [hs] at this; simp at this
+  · rfl
+
+/-- a comment character is never the separator byte -/
+theorem comment_ne_d (cfg : Cfg) (hw : CfgWF cfg) (e : EntryI) (h : e.WF cfg) (k : Byte) (hk : k ∈ cfg.comment) : k ≠ e.d := by
+  intro hh
+  rcases h.dIn with hd | ⟨_, hd⟩
+  · have := hw.kd k hk
+    rw [hh, hd] at this; cases this
+  · have := hw.kb k hk
+    rw [hh, isBlank_isSpace hd] at this; cases this
 
 theorem core_texts (cfg : Cfg) (e : EntryI) (h : e.WF cfg) : texts e.core := by
   intro c hc
@@ -493,10 +516,7 @@ theorem core_safe (cfg : Cfg) (hw : CfgWF cfg) (e : EntryI) (h : e.WF cfg) (k : 
     intro ws hws hin
     have := isBlank_isSpace (hws k hin)
     rw [hw.kb k hk] at this; cases this
-  have hkd : k ≠ e.d := by
-    intro hh
-    have := hw.kd k hk
-    rw [hh, h.dIn] at this; cases this
+  have hkd : k ≠ e.d := comment_ne_d cfg hw e h k hk
   have hkkey : k ∉ e.key := fun hin => (h.keyCh k hin).2.2.2.1 hk
   have hpre : k ∉ e.key ++ e.ws1 ++ e.d :: e.ws2 := by
     simp only [List.mem_append, List.mem_cons, not_or]
@@ -536,12 +556,29 @@ theorem dropWhile_upto {α} (p : α → Bool) (pre : List α) (x : α) (rest : L
     (hall : ∀ c ∈ pre, p c = true) (hx : p x = false) : (pre ++ x :: rest).dropWhile p = x :: rest := by
   rw [dropWhile_append_of_all _ _ _ hall, List.dropWhile_cons, hx]; simp
 
-theorem splitKey_core (cfg : Cfg) (hw : CfgWF cfg) (e : EntryI) (h : e.WF cfg) :
-    splitKey cfg.delim e.core =
-      (match e.ws1 with
-       | [] => (e.key, true, e.rest)
-       | _ :: bs => (e.key, false, bs ++ e.d :: e.rest)) := by
-  have hmixed : mixedDelim cfg.delim = false := by simp [mixedDelim, hw.nonblank]
+/-- "delimiter seen" as `read_file` computes it from the byte right behind the key -/
+def seenAt (delim : Str) (x : Byte) : Bool :=
+  if mixedDelim delim then !isSpace x && delim.contains x else delim.contains x
+
+/-- the byte right behind the key of an entry line -/
+def EntryI.sepByte (e : EntryI) : Byte :=
+  match e.ws1 with
+  | [] => e.d
+  | b :: _ => b
+
+/-- what follows that byte -/
+def EntryI.data (e : EntryI) : Str :=
+  match e.ws1 with
+  | [] => e.rest
+  | _ :: bs => bs ++ e.d :: e.rest
+
+theorem d_is_sep (cfg : Cfg) (e : EntryI) (h : e.WF cfg) : (isSpace e.d || cfg.delim.contains e.d) = true := by
+  rcases h.dIn with hd | ⟨_, hd⟩
+  · rw [hd]; simp
+  · rw [isBlank_isSpace hd]; simp
+
+theorem splitKey_core (cfg : Cfg) (e : EntryI) (h : e.WF cfg) :
+    splitKey cfg.delim e.core = (e.key, seenAt cfg.delim e.sepByte, e.data) := by
   have hkeysep : ∀ x ∈ e.key, (fun c => !(isSpace c || cfg.delim.contains c)) x = true := by
     intro x hx; show (!(isSpace x || cfg.delim.contains x)) = true
     rw [(h.keyCh x hx).2.1, (h.keyCh x hx).2.2.1]; rfl
@@ -550,15 +587,15 @@ theorem splitKey_core (cfg : Cfg) (hw : CfgWF cfg) (e : EntryI) (h : e.WF cfg) :
     | nil => exact absurd hk h.keyNe
     | cons a as => exact ⟨a, as, rfl⟩
   rw [EntryI.core_eq]
-  unfold splitKey
+  unfold splitKey EntryI.sepByte EntryI.data seenAt
   cases hws : e.ws1 with
   | nil =>
     have hd : (fun c => !(isSpace c || cfg.delim.contains c)) e.d = false := by
       show (!(isSpace e.d || cfg.delim.contains e.d)) = false
-      rw [h.dIn]; simp
+      rw [d_is_sep cfg e h]; rfl
     simp only [List.nil_append]
     rw [takeWhile_upto _ _ _ _ hkeysep hd, dropWhile_upto _ _ _ _ hkeysep hd]
-    simp only [hkey, hmixed, Bool.false_eq_true, if_false, h.dIn]
+    simp only [hkey]
   | cons b bs =>
     have hb : isBlank b = true := h.ws1 b (by rw [hws]; simp)
     have hbs : (fun c => !(isSpace c || cfg.delim.contains c)) b = false := by
@@ -566,7 +603,7 @@ theorem splitKey_core (cfg : Cfg) (hw : CfgWF cfg) (e : EntryI) (h : e.WF cfg) :
       rw [isBlank_isSpace hb]; simp
     simp only [List.cons_append]
     rw [takeWhile_upto _ _ _ _ hkeysep hbs, dropWhile_upto _ _ _ _ hkeysep hbs]
-    simp only [hkey, hmixed, Bool.false_eq_true, if_false, blank_not_delim cfg hw b hb]
+    simp only [hkey]
 
 /-- the value of an entry line, from the first byte after the blanks behind the delimiter -/
 theorem valueOf_rest (cfg : Cfg) (e : EntryI) (h : e.WF cfg) :
@@ -594,120 +631,214 @@ theorem valueOf_rest (cfg : Cfg) (e : EntryI) (h : e.WF cfg) :
       have : (ValSpell.render (.plain (c :: cs)) ++ e.tws).dropWhile isSpace = (c :: cs) ++ e.tws := by
         simp only [ValSpell.render, List.cons_append]
         rw [List.dropWhile_cons]; simp [hc.1]
-      rw [this, valueOf_plain c cs e.tws h.tws hc.2 hv.2.2.2]
+      rw [this, valueOf_plain c cs e.tws h.tws hc.2.1 hv.2.2.2]
+
+/-- the text from the first non-blank byte behind the separator -/
+def EntryI.vtext (e : EntryI) : Str := e.rest.dropWhile isSpace
+
+theorem vtext_eq (e : EntryI) (cfg : Cfg) (h : e.WF cfg) : e.vtext = (e.value.render ++ e.tws).dropWhile isSpace := by
+  unfold EntryI.vtext EntryI.rest
+  rw [List.append_assoc, dropWhile_blanks _ _ h.ws2]
+
+/-- the value read from that text is the expected one, unless the value is the empty plain text
+    (then the text is empty) -/
+theorem valueOf_vtext (cfg : Cfg) (e : EntryI) (h : e.WF cfg) :
+    (e.value ≠ .plain [] ∧ valueOf e.vtext = e.expValue) ∨ (e.value = .plain [] ∧ e.vtext = []) := by
+  cases hval : e.value with
+  | quoted q =>
+    left; refine ⟨(by intro hh; cases hh), ?_⟩
+    unfold EntryI.vtext
+    rw [valueOf_rest cfg e h, hval]; simp [EntryI.expValue, hval]
+  | plain v =>
+    cases v with
+    | nil =>
+      right; refine ⟨rfl, ?_⟩
+      rw [vtext_eq e cfg h, hval]
+      simp [ValSpell.render, dropWhile_all_blanks _ h.tws]
+    | cons c cs =>
+      left; refine ⟨(by intro hh; cases hh), ?_⟩
+      unfold EntryI.vtext
+      rw [valueOf_rest cfg e h, hval]; simp [EntryI.expValue, hval]
+
+/-- in the mixed class the text does not start with a delimiter byte -/
+theorem vtext_head (cfg : Cfg) (hw : CfgWF cfg) (e : EntryI) (h : e.WF cfg) (hm : mixedDelim cfg.delim = true)
+    (c : Byte) (cs : Str) (hv : e.vtext = c :: cs) : cfg.delim.contains c = false := by
+  rw [vtext_eq e cfg h] at hv
+  have hval := h.val
+  cases hvl : e.value with
+  | quoted q =>
+    rw [hvl] at hv
+    simp only [ValSpell.render, List.cons_append, List.dropWhile_cons] at hv
+    have : isSpace QUOTE = false := by decide
+    simp only [this, Bool.false_eq_true, if_false, List.cons.injEq] at hv
+    rw [← hv.1]; exact hw.dquote
+  | plain v =>
+    rw [hvl] at hv hval
+    cases v with
+    | nil =>
+      simp only [ValSpell.render, List.nil_append] at hv
+      rw [dropWhile_all_blanks _ h.tws] at hv; cases hv
+    | cons a as =>
+      have ha := hval.2.2.1 a rfl
+      simp only [ValSpell.render, List.cons_append, List.dropWhile_cons, ha.1, Bool.false_eq_true, if_false, List.cons.injEq] at hv
+      rw [← hv.1]; exact ha.2.2 hm
+
+/-- skipping the separator: whatever the class, the parser arrives at the text of the value -/
+theorem skipDelim_core (cfg : Cfg) (hw : CfgWF cfg) (e : EntryI) (h : e.WF cfg) :
+    skipDelim cfg.delim (seenAt cfg.delim e.sepByte) e.data = .ok e.vtext := by
+  -- the three classes
+  by_cases hmx : mixedDelim cfg.delim = true
+  · -- mixed: blanks and other bytes
+    have hwsp : hasWsp cfg.delim = true := by
+      unfold mixedDelim at hmx; simp only [Bool.and_eq_true] at hmx; exact hmx.1
+    have hskip : ∀ (ds : Bool) (data : Str), data.dropWhile isSpace = e.vtext →
+        skipDelim cfg.delim ds data = .ok e.vtext := by
+      intro ds data hd
+      unfold skipDelim
+      simp only [hwsp, Bool.not_true, Bool.false_and, Bool.false_eq_true, if_false, hmx, Bool.true_and, hd]
+      cases ds
+      · simp only [Bool.not_false, if_true]
+        cases hv : e.vtext with
+        | nil => rfl
+        | cons c cs => simp only [vtext_head cfg hw e h hmx c cs hv, Bool.false_eq_true, if_false]
+      · simp
+    unfold EntryI.data EntryI.sepByte
+    cases hws : e.ws1 with
+    | nil =>
+      simp only
+      by_cases hds : seenAt cfg.delim e.d = true
+      · rw [hds]
+        unfold skipDelim
+        simp only [hwsp, Bool.not_true, Bool.false_and, Bool.false_eq_true, if_false, hmx, Bool.and_false]
+        rfl
+      · have hds' : seenAt cfg.delim e.d = false := by simpa using hds
+        rw [hds']
+        exact hskip false e.rest rfl
+    | cons b bs =>
+      simp only
+      have hbsb : blanks bs := fun x hx => h.ws1 x (by rw [hws]; exact List.mem_cons_of_mem _ hx)
+      have hb : isBlank b = true := h.ws1 b (by rw [hws]; simp)
+      have hseen : seenAt cfg.delim b = false := by
+        unfold seenAt; simp [hmx, isBlank_isSpace hb]
+      rw [hseen]
+      by_cases hdsp : isSpace e.d = true
+      · apply hskip
+        rw [dropWhile_blanks _ _ hbsb, List.dropWhile_cons, hdsp]; rfl
+      · have hdsp' : isSpace e.d = false := by simpa using hdsp
+        have hdin : cfg.delim.contains e.d = true := by
+          rcases h.dIn with hd | ⟨_, hd⟩
+          · exact hd
+          · rw [isBlank_isSpace hd] at hdsp'; cases hdsp'
+        unfold skipDelim
+        have hd1 : (bs ++ e.d :: e.rest).dropWhile isSpace = e.d :: e.rest := by
+          rw [dropWhile_blanks _ _ hbsb, List.dropWhile_cons, hdsp']; rfl
+        simp only [hwsp, Bool.not_true, Bool.false_and, Bool.false_eq_true, if_false, hmx, Bool.true_and, Bool.not_false, if_true, hd1, hdin]
+        rfl
+  · have hmx' : mixedDelim cfg.delim = false := by simpa using hmx
+    have hdin : cfg.delim.contains e.d = true := by
+      rcases h.dIn with hd | ⟨hm, _⟩
+      · exact hd
+      · rw [hmx'] at hm; cases hm
+    by_cases hwsp : hasWsp cfg.delim = true
+    · -- blank class: every delimiter is a blank
+      have hnw : hasNonWsp cfg.delim = false := by
+        unfold mixedDelim at hmx'; rw [hwsp] at hmx'; simpa using hmx'
+      have hdsp : isSpace e.d = true := space_of_delim cfg.delim hnw e.d hdin
+      have hskip : ∀ (ds : Bool) (data : Str), data.dropWhile isSpace = e.vtext → skipDelim cfg.delim ds data = .ok e.vtext := by
+        intro ds data hd
+        unfold skipDelim
+        simp only [hwsp, Bool.not_true, Bool.false_and, Bool.false_eq_true, if_false, hmx', hd]
+      unfold EntryI.data EntryI.sepByte
+      cases hws : e.ws1 with
+      | nil => exact hskip _ _ rfl
+      | cons b bs =>
+        have hbsb : blanks bs := fun x hx => h.ws1 x (by rw [hws]; exact List.mem_cons_of_mem _ hx)
+        apply hskip
+        rw [dropWhile_blanks _ _ hbsb, List.dropWhile_cons, hdsp]; rfl
+    · -- non-blank class
+      have hwsp' : hasWsp cfg.delim = false := by simpa using hwsp
+      have hdsp : isSpace e.d = false := not_space_of_delim cfg.delim hwsp' e.d hdin
+      unfold EntryI.data EntryI.sepByte seenAt
+      cases hws : e.ws1 with
+      | nil =>
+        unfold skipDelim
+        simp only [hmx', Bool.false_eq_true, if_false, hdin, Bool.not_true, Bool.and_false, Bool.false_and]
+        rfl
+      | cons b bs =>
+        have hbsb : blanks bs := fun x hx => h.ws1 x (by rw [hws]; exact List.mem_cons_of_mem _ hx)
+        have hb : isBlank b = true := h.ws1 b (by rw [hws]; simp)
+        have hd1 : (bs ++ e.d :: e.rest).dropWhile isSpace = e.d :: e.rest := by
+          rw [dropWhile_blanks _ _ hbsb, List.dropWhile_cons, hdsp]; rfl
+        unfold skipDelim
+        simp only [hmx', Bool.false_eq_true, if_false, blank_not_delim cfg.delim hwsp' b hb, hwsp', Bool.not_false, Bool.true_and,
+          if_true, hd1, hdin]
+        rfl
 
 /-- the value the parser assigns to an entry line of the grammar is the expected one -/
 theorem parseValue_core (cfg : Cfg) (hw : CfgWF cfg) (e : EntryI) (h : e.WF cfg) :
-    (match e.ws1 with
-     | [] => parseValue cfg.delim true e.rest
-     | _ :: bs => parseValue cfg.delim false (bs ++ e.d :: e.rest)) = .ok e.expValue := by
-  have hdns : isSpace e.d = false := not_space_of_delim cfg hw e.d h.dIn
-  have hexp_nonempty : e.rest.dropWhile isSpace ≠ [] ∨ e.value = .plain [] := by
-    cases hval : e.value with
-    | quoted q =>
-      left
-      unfold EntryI.rest
-      rw [hval, List.append_assoc, dropWhile_blanks _ _ h.ws2]
-      simp [ValSpell.render, List.dropWhile_cons, isSpace, QUOTE]
-    | plain v =>
-      cases v with
-      | nil => right; rfl
-      | cons c cs =>
-        left
-        have hv := h.val
-        rw [hval] at hv
-        unfold EntryI.rest
-        rw [hval, List.append_assoc, dropWhile_blanks _ _ h.ws2]
-        simp [ValSpell.render, List.dropWhile_cons, (hv.2.2.1 c rfl).1]
-  have hval_eq : valueOf (e.rest.dropWhile isSpace) = e.expValue ∨ (e.value = .plain [] ∧ True) := by
-    cases hval : e.value with
-    | quoted q => left; rw [valueOf_rest cfg e h, hval]; simp [EntryI.expValue, hval]
-    | plain v =>
-      cases v with
-      | nil => right; exact ⟨rfl, trivial⟩
-      | cons c cs => left; rw [valueOf_rest cfg e h, hval]; simp [EntryI.expValue, hval]
-  cases hws : e.ws1 with
-  | nil =>
-    simp only
-    unfold parseValue
-    by_cases hre : e.rest.isEmpty = true
-    · -- nothing at all follows the delimiter: no value
-      have hr : e.rest = [] := by simpa using hre
-      simp only [hre, if_true]
-      unfold EntryI.rest at hr
+    parseValue cfg.delim (seenAt cfg.delim e.sepByte) e.data = .ok e.expValue := by
+  unfold parseValue
+  by_cases hde : e.data.isEmpty = true
+  · -- nothing at all follows the byte behind the key: no value
+    simp only [hde, if_true]
+    have hd : e.data = [] := by simpa using hde
+    unfold EntryI.data at hd
+    cases hws : e.ws1 with
+    | cons b bs => rw [hws] at hd; simp at hd
+    | nil =>
+      rw [hws] at hd
+      simp only at hd
+      unfold EntryI.rest at hd
       have h1 : e.ws2 = [] := by
         cases hh : e.ws2 with
         | nil => rfl
-        | cons a as => rw [hh] at hr; simp at hr
+        | cons a as => rw [hh] at hd; simp at hd
       have h3 : e.tws = [] := by
         cases hh : e.tws with
         | nil => rfl
-        | cons a as => rw [hh] at hr; simp at hr
+        | cons a as => rw [hh] at hd; simp at hd
       have h2 : e.value.render = [] := by
-        rw [h1, h3] at hr; simpa using hr
+        rw [h1, h3] at hd; simpa using hd
       have hv : e.value = .plain [] := by
         cases hval : e.value with
         | plain v => rw [hval] at h2; simp [ValSpell.render] at h2; rw [h2]
         | quoted q => rw [hval] at h2; simp [ValSpell.render] at h2
       simp [EntryI.expValue, hv, hws, h1, h3]
-    · simp only [hre, Bool.false_eq_true, if_false]
-      unfold skipDelim
-      simp only [hw.nonblank, Bool.not_false, Bool.not_true, Bool.and_false, Bool.false_eq_true, if_false,
-        show mixedDelim cfg.delim = false by simp [mixedDelim, hw.nonblank], Bool.false_and]
-      rcases hval_eq with hv | ⟨hv, _⟩
-      · rw [hv]
-      · -- empty plain value, but blanks follow: the empty text
-        have hd : e.rest.dropWhile isSpace = [] := by
-          unfold EntryI.rest
-          rw [hv, List.append_assoc, dropWhile_blanks _ _ h.ws2]
-          simp [ValSpell.render, dropWhile_all_blanks _ h.tws]
-        rw [hd]
-        have hne : ¬ (e.ws2.isEmpty = true ∧ e.tws.isEmpty = true) := by
-          intro hh
-          apply hre
-          unfold EntryI.rest
-          have a : e.ws2 = [] := by simpa using hh.1
-          have b : e.tws = [] := by simpa using hh.2
-          simp [a, b, hv, ValSpell.render]
-        simp only [valueOf, EntryI.expValue, hv, List.isEmpty_nil, if_true, hws, Bool.true_and]
-        by_cases ha : e.ws2.isEmpty = true
-        · have hb : e.tws.isEmpty = false := by
-            cases hh : e.tws.isEmpty
-            · rfl
-            · exact absurd ⟨ha, hh⟩ hne
-          simp [ha, hb]
-        · have ha' : e.ws2.isEmpty = false := by simpa using ha
-          simp [ha']
-  | cons b bs =>
-    simp only
-    have hbsb : blanks bs := fun x hx => h.ws1 x (by rw [hws]; exact List.mem_cons_of_mem _ hx)
-    unfold parseValue
-    have hne : (bs ++ e.d :: e.rest).isEmpty = false := by simp
-    simp only [hne, Bool.false_eq_true, if_false]
-    unfold skipDelim
-    have hd1 : (bs ++ e.d :: e.rest).dropWhile isSpace = e.d :: e.rest := by
-      rw [dropWhile_blanks _ _ hbsb, List.dropWhile_cons]; simp [hdns]
-    simp only [hw.nonblank, Bool.not_false, Bool.true_and, if_true, hd1, h.dIn]
-    rcases hval_eq with hv | ⟨hv, _⟩
+  · simp only [hde, Bool.false_eq_true, if_false, skipDelim_core cfg hw e h]
+    rcases valueOf_vtext cfg e h with ⟨_, hv⟩ | ⟨hv, hvt⟩
     · rw [hv]
-    · have hd : e.rest.dropWhile isSpace = [] := by
-        unfold EntryI.rest
-        rw [hv, List.append_assoc, dropWhile_blanks _ _ h.ws2]
-        simp [ValSpell.render, dropWhile_all_blanks _ h.tws]
-      rw [hd]
-      simp [valueOf, EntryI.expValue, hv, hws]
+    · -- the empty plain value with something (blanks, the separator) behind the key: the empty text
+      rw [hvt]
+      have hne : ¬(e.ws1.isEmpty = true ∧ e.ws2.isEmpty = true ∧ e.tws.isEmpty = true) := by
+        intro hh
+        apply hde
+        have a : e.ws1 = [] := by simpa using hh.1
+        have b : e.ws2 = [] := by simpa using hh.2.1
+        have c : e.tws = [] := by simpa using hh.2.2
+        simp [EntryI.data, EntryI.rest, a, b, c, hv, ValSpell.render]
+      simp only [valueOf, EntryI.expValue, hv, List.isEmpty_nil, if_true]
+      cases h1 : e.ws1.isEmpty <;> cases h2 : e.ws2.isEmpty <;> cases h3 : e.tws.isEmpty <;> simp_all
 
-
+/-- an entry line is never taken for a continuation of the previous entry -/
 theorem isContinuation_core (cfg : Cfg) (hw : CfgWF cfg) (st : PState) (org : Str) (e : EntryI) (h : e.WF cfg) :
-    (match e.ws1 with
-     | [] => isContinuation cfg st org true e.rest
-     | _ :: bs => isContinuation cfg st org false (bs ++ e.d :: e.rest)) = false := by
-  cases hws : e.ws1 with
-  | nil => simp [isContinuation, hw.noPython]
-  | cons b bs =>
-    have : (bs ++ e.d :: e.rest).any cfg.delim.contains = true := by
-      rw [List.any_append, List.any_cons, h.dIn]; simp
-    simp only [isContinuation, hw.noPython, this]
+    isContinuation cfg st org (seenAt cfg.delim e.sepByte) e.data = false := by
+  unfold isContinuation
+  by_cases hmx : mixedDelim cfg.delim = true
+  · simp [hmx]
+  · have hmx' : mixedDelim cfg.delim = false := by simpa using hmx
+    have hdin : cfg.delim.contains e.d = true := by
+      rcases h.dIn with hd | ⟨hm, _⟩
+      · exact hd
+      · rw [hmx'] at hm; cases hm
+    have hfound : (seenAt cfg.delim e.sepByte || e.data.any cfg.delim.contains) = true := by
+      unfold EntryI.sepByte EntryI.data seenAt
+      cases hws : e.ws1 with
+      | nil => simp only [hmx', Bool.false_eq_true, if_false, hdin, Bool.true_or]
+      | cons b bs =>
+        have : (bs ++ e.d :: e.rest).any cfg.delim.contains = true := by
+          rw [List.any_append, List.any_cons, hdin]; simp
+        simp [this]
+    simp only [hw.noPython, hmx', hfound]
     simp
 
 /-- first line of an entry item -/
@@ -751,22 +882,16 @@ theorem parse_entry_first (cfg : Cfg) (hw : CfgWF cfg) (st : PState) (e : EntryI
   simp only [List.cons_append] at hscan
   rw [hscan]
   simp only [parseContent, hlbr, Bool.false_eq_true, if_false, noDelim_false cfg hw, parseEntry]
-  rw [← hcore, splitKey_core cfg hw e h]
+  rw [← hcore, splitKey_core cfg e h]
   have hcont := isContinuation_core cfg hw { st with line := st.line + 1, ca := caWith st.ca e.tc } org e h
   have hval := parseValue_core cfg hw e h
   have hkne : e.key.isEmpty = false := by rw [hkey]; rfl
-  cases hws : e.ws1 with
-  | nil =>
-    rw [hws] at hcont hval
-    simp only at hcont hval ⊢
-    simp only [hcont, Bool.false_eq_true, if_false, hkne, hval]
-  | cons b bs =>
-    rw [hws] at hcont hval
-    simp only at hcont hval ⊢
-    simp only [hcont, Bool.false_eq_true, if_false, hkne, hval]
+  simp only [hcont, Bool.false_eq_true, if_false, hkne, hval]
 
 
-/-- well-formed continuation line -/
+/-- well-formed continuation line: indentation, a text free of delimiter and comment bytes, trailing
+    blanks that are no delimiters (automatic when no delimiter is a blank).  Continuation lines exist
+    only when the delimiter set does not mix blanks and other bytes (`Item.WF`). -/
 structure ContLine.WF (cfg : Cfg) (l : ContLine) : Prop where
   ind : blanks l.indent
   indNe : l.indent ≠ []
@@ -774,6 +899,7 @@ structure ContLine.WF (cfg : Cfg) (l : ContLine) : Prop where
   textNe : l.text ≠ []
   textCh : ∀ c ∈ l.text, isText c = true ∧ cfg.delim.contains c = false ∧ c ∉ cfg.comment
   head : ∀ c, l.text.head? = some c → isSpace c = false ∧ c ≠ LBR
+  trailNd : ∀ c ∈ l.trail, cfg.delim.contains c = false
 
 /-- the last entry was stored or extended on the current line -/
 def LastHere (st : PState) : Prop := ∃ e, st.entries.getLast? = some e ∧ e.line = st.line
@@ -828,9 +954,8 @@ theorem foldl_takeWhile_id (ks l : Str) (h : ∀ k ∈ ks, k ∉ l) : ks.foldl (
     exact ih (fun k' hk' => h k' (List.mem_cons_of_mem _ hk'))
 
 /-- continuation line of an entry item -/
-theorem parse_cont (cfg : Cfg) (hw : CfgWF cfg) (st : PState) (l : ContLine) (h : l.WF cfg) (hl : LastHere st) :
+theorem parse_cont (cfg : Cfg) (hw : CfgWF cfg) (hmixed : mixedDelim cfg.delim = false) (st : PState) (l : ContLine) (h : l.WF cfg) (hl : LastHere st) :
     parseLine cfg st (l.render ++ [NL]) = .ok (storeAppend false { st with line := st.line + 1 } l.render) := by
-  have hmixed : mixedDelim cfg.delim = false := by simp [mixedDelim, hw.nonblank]
   have hbodytext : texts (l.text ++ l.trail) := by
     intro c hc
     rcases List.mem_append.mp hc with hc | hc
@@ -872,7 +997,7 @@ theorem parse_cont (cfg : Cfg) (hw : CfgWF cfg) (st : PState) (l : ContLine) (h 
     intro c hc
     rcases List.mem_append.mp hc with hc | hc
     · exact (h.textCh c hc).2.1
-    · exact blank_not_delim cfg hw c (h.trail c hc)
+    · exact h.trailNd c hc
   have hsk := splitKey_nodelim cfg.delim (l.text ++ l.trail) hmixed hnd
   have hct : contText false cfg.comment (l.render ++ [NL]) = l.render := by
     unfold contText
@@ -899,7 +1024,7 @@ theorem parse_cont (cfg : Cfg) (hw : CfgWF cfg) (st : PState) (l : ContLine) (h 
 
 
 /-- continuation lines of an entry item -/
-theorem parse_conts (cfg : Cfg) (hw : CfgWF cfg) (conts : List ContLine) (st : PState)
+theorem parse_conts (cfg : Cfg) (hw : CfgWF cfg) (hmixed : mixedDelim cfg.delim = false) (conts : List ContLine) (st : PState)
     (h : ∀ l ∈ conts, l.WF cfg) (hl : LastHere st) :
     parseLines cfg st (conts.map (fun l => l.render ++ [NL])) =
       .ok (conts.foldl (fun s l => storeAppend false { s with line := s.line + 1 } l.render) st) ∧
@@ -907,7 +1032,7 @@ theorem parse_conts (cfg : Cfg) (hw : CfgWF cfg) (conts : List ContLine) (st : P
   induction conts generalizing st with
   | nil => exact ⟨rfl, hl⟩
   | cons l ls ih =>
-    have h1 := parse_cont cfg hw st l (h l (by simp)) hl
+    have h1 := parse_cont cfg hw hmixed st l (h l (by simp)) hl
     have hl' : LastHere (storeAppend false { st with line := st.line + 1 } l.render) :=
       lastHere_storeAppend false _ _ (entries_ne_of_lastHere st hl)
     have := ih _ (fun l' hl' => h l' (List.mem_cons_of_mem _ hl')) hl'
@@ -920,7 +1045,7 @@ def Item.WF (cfg : Cfg) : Item → Prop
   | .comment ind c text => blanks ind ∧ c ∈ cfg.comment ∧ texts text
   | .sect ind name trail tc =>
       blanks ind ∧ blanks trail ∧ name ≠ [] ∧ (∀ c ∈ name, isText c = true ∧ c ∉ cfg.comment) ∧ TrailC.WF cfg tc
-  | .entry e => e.WF cfg ∧ ∀ l ∈ e.cont, l.WF cfg
+  | .entry e => e.WF cfg ∧ (∀ l ∈ e.cont, l.WF cfg) ∧ (e.cont ≠ [] → mixedDelim cfg.delim = false)
 
 /-- every item is parsed into what it is expected to contribute -/
 theorem parse_item (cfg : Cfg) (hw : CfgWF cfg) (st : PState) (it : Item) (h : it.WF cfg) :
@@ -931,9 +1056,11 @@ theorem parse_item (cfg : Cfg) (hw : CfgWF cfg) (st : PState) (it : Item) (h : i
   | sect ind name trail tc => exact parse_sect cfg st ind name trail tc hw h.1 h.2.1 h.2.2.1 h.2.2.2.1 h.2.2.2.2
   | entry e =>
     have h1 := parse_entry_first cfg hw st e h.1
-    have h2 := parse_conts cfg hw e.cont _ h.2 (lastHere_storeNew { st with line := st.line + 1, ca := caWith st.ca e.tc } e.key e.expValue.1 e.expValue.2)
     simp only [Item.lines, parseLines, h1, expItem]
-    exact h2.1
+    by_cases hc : e.cont = []
+    · rw [hc]; rfl
+    · have h2 := parse_conts cfg hw (h.2.2 hc) e.cont _ h.2.1 (lastHere_storeNew { st with line := st.line + 1, ca := caWith st.ca e.tc } e.key e.expValue.1 e.expValue.2)
+      exact h2.1
 
 /-- documents -/
 theorem parse_doc (cfg : Cfg) (hw : CfgWF cfg) (doc : List Item) (st : PState) (h : ∀ it ∈ doc, it.WF cfg) :
@@ -1026,7 +1153,7 @@ theorem item_lines_text (cfg : Cfg) (hw : CfgWF cfg) (it : Item) (h : it.WF cfg)
       rw [EntryI.body_eq]
       exact texts_append (core_texts cfg e h.1) (trail_texts cfg hw e.tc h.1.tc)
     · subst hl
-      have hc' := h.2 c hc
+      have hc' := h.2.1 c hc
       refine ⟨c.render, rfl, ?_⟩
       unfold ContLine.render
       exact texts_append (texts_append (texts_blanks hc'.ind) (fun x hx => (hc'.textCh x hx).1)) (texts_blanks hc'.trail)
